@@ -101,6 +101,18 @@ theorem flush_exc_iff (m : Nat) (c : Conn) (o : SendOut) :
   | nil => simp
   | cons mv rest => cases o <;> simp <;> split <;> simp
 
+theorem flush_exc_eq (m : Nat) (c : Conn) (o : SendOut) (x : FlushExc) (h : (flush m c o).exc = some x) :
+    (x = .brokenPipe ∧ o = .brokenPipe) ∨ (x = .osError ∧ o = .osError) ∨
+    (x = .sslWantWrite ∧ o = .sslWantWrite) := by
+  unfold flush at h
+  cases hb : c.buffer with
+  | nil => simp [hb] at h
+  | cons mv rest =>
+    rw [hb] at h
+    cases o <;> simp at h
+    · split at h <;> simp at h
+    all_goals (subst h; simp)
+
 theorem flush_blocking (m : Nat) (c : Conn) : (flush m c .blocking).conn = c := by
   unfold flush; cases hb : c.buffer <;> simp [hb]
 
@@ -173,5 +185,39 @@ theorem hasBuffer_false_iff (c : Conn) : c.hasBuffer = false ↔ c.buffer = [] :
 
 theorem hasBuffer_true_iff (c : Conn) : c.hasBuffer = true ↔ c.buffer ≠ [] := by
   simp [hasBuffer]
+
+/-- no queued element is the empty byte string -/
+def NoEmpty (c : Conn) : Prop := ∀ e ∈ c.buffer, e ≠ []
+
+theorem flush_noEmpty (m : Nat) (c : Conn) (o : SendOut) (h : NoEmpty c) : NoEmpty (flush m c o).conn := by
+  unfold flush
+  cases hb : c.buffer with
+  | nil => simpa [hb] using h
+  | cons mv rest =>
+    have hmv : mv ≠ [] := h mv (by simp [hb])
+    have hrest : ∀ e ∈ rest, e ≠ [] := fun e he => h e (by simp [hb, he])
+    cases o with
+    | sent k =>
+      simp only
+      split
+      · intro e he; exact hrest e he
+      · rename_i hne
+        intro e he
+        simp at he
+        rcases he with he | he
+        · subst he
+          intro hd
+          have := congrArg List.length hd
+          simp [List.length_take] at this hne
+          omega
+        · exact hrest e he
+    | _ => intro e he; exact h e (by simpa [hb] using he)
+
+theorem queue_noEmpty (c : Conn) (b : Bytes) (h : NoEmpty c) (hb : b ≠ []) : NoEmpty (c.queue b) := by
+  intro e he
+  simp [queue] at he
+  rcases he with he | he
+  · exact h e he
+  · subst he; exact hb
 
 end Px.Conn
